@@ -21,6 +21,7 @@
 #include <linux/futex.h>
 #include <pthread.h>
 #include <sys/prctl.h>
+#include <sys/resource.h>
 #include <sys/syscall.h>
 #include <time.h>
 #include <unistd.h>
@@ -252,7 +253,6 @@ struct Result {
     int64_t simtime_ns = 0;
 };
 static Result g_res;
-static RunInfo g_info;
 static int64_t g_wall_start_ns = 0;
 static int64_t real_now_ns() {
     struct timespec ts;
@@ -260,6 +260,7 @@ static int64_t real_now_ns() {
     return static_cast<int64_t>(ts.tv_sec) * 1000000000LL + ts.tv_nsec;
 }
 
+static RunInfo g_info;
 static inline void hash_mix(uint64_t& h, uint64_t v) {
     for (int i = 0; i < 8; ++i) {
         h ^= (v >> (i * 8)) & 0xff;
@@ -280,7 +281,12 @@ static int objid_of(void* p) {
 
 static void log_op(int kind, void* obj) {
     ++g_event_seq;
-    uint64_t v = (static_cast<uint64_t>(g_cur) << 40) ^ (static_cast<uint64_t>(kind) << 32) ^ static_cast<uint64_t>(obj ? objid_of(obj) : 0);
+    static const bool trace = __real_getenv("VERIF_TRACE") != nullptr;
+    if (trace) { fprintf(stderr, "[ev] run %" PRIu64 " t%d k%d\n", g_info.index, g_cur, kind); }
+    // Only (thread, operation kind) is hashed. Object identities are left out on purpose: first-seen numbering
+    // of addresses depends on heap address reuse, which depends on what the worker process ran before.
+    (void)obj;
+    uint64_t v = (static_cast<uint64_t>(g_cur) << 40) ^ (static_cast<uint64_t>(kind) << 32);
     hash_mix(g_hash, v);
     hash_mix(g_sig, v);
 }
@@ -428,6 +434,22 @@ static std::string blocked_signature() {
     return s;
 }
 
+// livelock: the polling threads are caught in an arbitrary state, so only the role names go into the signature
+static std::string live_names_signature() {
+    std::vector<std::string> parts;
+    for (auto* t : g_ths) {
+        if (t->st == DONE) { continue; }
+        std::string n = t->name[0] ? t->name : (t->id == 0 ? "main" : "thread");
+        if (n.size() > 1 && n[0] == 'T' && n[1] >= '0' && n[1] <= '9') { n = "thread"; }
+        parts.push_back(n);
+    }
+    std::sort(parts.begin(), parts.end());
+    parts.erase(std::unique(parts.begin(), parts.end()), parts.end());
+    std::string s;
+    for (auto& p : parts) { if (!s.empty()) { s += ","; } s += p; }
+    return s;
+}
+
 void report(const char* cls, const std::string& sig, const std::string& detail) {
     if (!g_res.violation) {
         g_res.violation = true;
@@ -523,7 +545,7 @@ static Th* pick_next(Th* me) {
         ++g_steps;
         g_now += g_tick_ns;
         if (g_steps > g_cfg.step_budget) {
-            fatal("livelock", std::string("sched.livelock/") + blocked_signature(), "step budget exhausted: " + describe_threads());
+            fatal("livelock", std::string("sched.livelock/") + live_names_signature(), "step budget exhausted: " + describe_threads());
         }
         if (cand.size() > g_max_enabled) { g_max_enabled = cand.size(); }
         uint32_t idx = 0;
@@ -963,9 +985,10 @@ static long sim_futex(int* addr, int op, int val, const struct timespec* timeout
 static int sim_once(pthread_once_t* ctrl, void (*init)(void)) {
     // The control word itself says NEW (0) or DONE (2); only "running in thread t" lives in the model, so
     // that a new once_flag at a recycled heap address is never mistaken for a completed one.
+    // pthread_once events are neither hashed nor given an object id: whether a process-wide control is still
+    // consulted at all can depend on what earlier runs of the same worker process did
     lockG();
     Th* me = t_self;
-    log_op(13, ctrl);
     for (;;) {
         if (*reinterpret_cast<volatile int*>(ctrl) == 2) {
             unlockG();
@@ -1074,6 +1097,14 @@ int worker_main(int argc, char** argv, const RunFn& run_fn) {
         else if (a.size() > 2 && a[0] == '-' && a[1] == '-') { std::string k = a.substr(2); base.params[k] = val(); }
     }
     setvbuf(stdout, nullptr, _IOFBF, 1 << 16);
+    {
+        // real descriptors stay below the simulated ones (simfs::FD_BASE = 1000)
+        struct rlimit rl;
+        if (getrlimit(RLIMIT_NOFILE, &rl) == 0 && rl.rlim_cur > 1000) {
+            rl.rlim_cur = 1000;
+            setrlimit(RLIMIT_NOFILE, &rl);
+        }
+    }
     if (!record_path.empty()) {
         g_tape.record_fd = ::open(record_path.c_str(), O_WRONLY | O_CREAT | O_TRUNC, 0644);
     }
